@@ -38,7 +38,7 @@ def _labels(rec, case, ax, c):
     unsorted_ = list(ax) != sorted(ax)
     tie = case["axes"]["mode"] in ("tie_all", "tie_two", "near_tie")
     cxy = c[0] != c[1]
-    rec.label("mode:" + case["axes"]["mode"], "centre:" + case["centre"]["kind"], "container:" + case["centre"]["container"],
+    rec.label("mode:" + case["axes"]["mode"], "centre:" + case["centre"]["kind"], "container:" + case["centre"]["container"], "ptype:" + case["axes"].get("ptype", "py"),
               "cx!=cy" if cxy else None, "unsorted_axes" if unsorted_ else None, "tie" if tie else None)
     rec.nontrivial = bool(cxy or unsorted_ or tie)
 
@@ -74,7 +74,7 @@ def _circle(case, rec):
     cen = curved.make_centre(case["centre"], r)
     c = np.asarray(cen, dtype=float)
     sig = {"cls": "Circle"}
-    sh = call(S.Circle, r, cen)
+    sh = call(S.Circle, *curved.typed(case["axes"]), cen)
     if isinstance(sh, Raised):
         rec.fail("construct", dict(sig, type=sh.type), msg=sh.msg)
         return
@@ -98,7 +98,7 @@ def _ellipse(case, rec):
     cen = curved.make_centre(case["centre"], max(a, b))
     c = np.asarray(cen, dtype=float)
     sig = {"cls": "Ellipse"}
-    sh = call(S.Ellipse, a, b, cen)
+    sh = call(S.Ellipse, *curved.typed(case["axes"]), cen)
     if isinstance(sh, Raised):
         rec.fail("construct", dict(sig, type=sh.type), msg=sh.msg)
         return
@@ -144,7 +144,7 @@ def _sphere(case, rec):
     cen = curved.make_centre(case["centre"], r)
     c = np.asarray(cen, dtype=float)
     sig = {"cls": "Sphere"}
-    sh = call(S.Sphere, r, cen)
+    sh = call(S.Sphere, *curved.typed(case["axes"]), cen)
     if isinstance(sh, Raised):
         rec.fail("construct", dict(sig, type=sh.type), msg=sh.msg)
         return
@@ -167,7 +167,7 @@ def _ellipsoid(case, rec):
     cen = curved.make_centre(case["centre"], max(a, b, cc))
     c = np.asarray(cen, dtype=float)
     sig = {"cls": "Ellipsoid"}
-    sh = call(S.Ellipsoid, a, b, cc, cen)
+    sh = call(S.Ellipsoid, *curved.typed(case["axes"]), cen)
     if isinstance(sh, Raised):
         rec.fail("construct", dict(sig, type=sh.type), msg=sh.msg)
         return
